@@ -4,7 +4,7 @@ import torch
 from hypothesis import strategies as st
 
 from vf import gen, refmodel as R
-from vf.common import Sub, require
+from vf.common import Sub, require, PropertyViolation
 
 PROPERTY = "C03"
 RULE = ("Generated: state type (3) x n 1..3 (thorough: ..4) x nh 1..4 x na 1..3, parameters with per-tensor scale <= 2 and "
@@ -40,8 +40,21 @@ def cases(draw, tier):
         else:
             b = draw(st.sampled_from(allb)) if draw(st.booleans()) else rows[draw(st.integers(0, i - 1))]["basis"]
         rows.append({"basis": b, "u": draw(U01)})
-    perm = draw(st.permutations(list(range(N))))
-    return {"state": sc, "rows": rows, "perm": list(perm), "split": draw(st.integers(0, N))}
+    big = draw(st.integers(0, 19)) == 0
+    if big:
+        # a large batch concentrated in few bases (size-dependent code paths such as chunked evaluation of a basis group)
+        g = draw(st.integers(100, 300))                       # rows of ONE basis group (the rotated one when there is one)
+        main = rows[1]["basis"] if len(rows) > 1 else rows[0]["basis"]
+        us = draw(st.lists(U01, min_size=g, max_size=g))
+        rows = rows + [{"basis": main, "u": u} for u in us]
+        N = len(rows)
+    perm = draw(st.permutations(list(range(N)))) if not big else list(range(N - 1, -1, -1))
+    c = {"state": sc, "rows": rows, "perm": list(perm), "split": draw(st.integers(0, N)), "big": big}
+    # second parameter set written in place into the same object after the first evaluation (evaluate, update, evaluate)
+    if draw(st.booleans()):
+        alt = draw(gen.state_case(types=[t], n=(n, n), nh=(sc["nh"], sc["nh"]), na=(sc.get("na", 1), sc.get("na", 1)), scales=[0.05, 0.5, 2.0], bound=60.0))
+        c["am2"], c["ph2"] = alt["am"], alt.get("ph")
+    return c
 
 
 MIN_ROW_PROB = 1e-9     # d(-log p) is ill-conditioned at p ~ 0 (u within 1e-9 of 1 can select such an outcome): excluded and counted
@@ -148,9 +161,27 @@ def same(a, b, what, rtol=1e-9):
 
 
 def check(case):
+    state = gen.build_state(case["state"])
+    r = check_round(case, state)
+    if case.get("am2") and not r.get("excluded"):
+        # same object, parameters overwritten in place (p.data.copy_): the gradients must be those of the NEW parameters
+        gen.set_net(state.rbm_am, case["am2"])
+        if case.get("ph2"):
+            gen.set_net(state.rbm_ph, case["ph2"])
+        sc2 = dict(case["state"], am=case["am2"])
+        if case.get("ph2"):
+            sc2["ph"] = case["ph2"]
+        c2 = dict(case, state=sc2)
+        try:
+            r2 = check_round(c2, state)
+        except PropertyViolation as v:
+            raise PropertyViolation("after-inplace-update:" + v.bucket, "after an in-place parameter update of the same object: " + v.message, v.detail)
+    return r
+
+
+def check_round(case, state):
     sc = case["state"]
     n, t = sc["n"], sc["type"]
-    state = gen.build_state(sc)
     rows, probs = born_rows(case, with_probs=True)
     if min(probs) < MIN_ROW_PROB:
         return {"nontrivial": False, "excluded": 1, "labels": ["excluded:row-probability<1e-9"]}
@@ -172,11 +203,12 @@ def check(case):
 
     # Oracle B: per-sample 1-D form, permutation, split
     acc = None
-    for i in range(N):
+    for i in (range(N) if N <= 40 else []):
         gi = state.gradient(samples[i].clone(), **G(bases[i]))
         gi = [x if isinstance(x, torch.Tensor) else torch.zeros_like(gs[j]) + float(x) for j, x in enumerate(gi)]
         acc = gi if acc is None else [a + b for a, b in zip(acc, gi)]
-    same([a / N for a in acc], pp, "positive phase != mean of per-sample (1-D call form) gradients")
+    if acc is not None:
+        same([a / N for a in acc], pp, "positive phase != mean of per-sample (1-D call form) gradients")
     perm = case["perm"]
     same(state.positive_phase_gradients(samples[perm].clone(), **B(bases[perm])), pp, "positive phase changes under a row permutation")
     s = case["split"]
@@ -205,7 +237,7 @@ def check(case):
     else:
         nt = len(bs) >= 2 and any("Y" in b for b in bs)
     return {"nontrivial": nt and gen.all_biases_nonzero(sc),
-            "labels": gen.arch_label(sc) + [f"N={N}"] + (["has_Y"] if any("Y" in b for b in bs) else []) + (["repeated_basis"] if len(bs) < N else [])}
+            "labels": gen.arch_label(sc) + [f"N={N}" if N <= 8 else "N>=120(big batch)"] + (["has_Y"] if any("Y" in b for b in bs) else []) + (["repeated_basis"] if len(bs) < N else [])}
 
 
 SUBCHECKS = [Sub("nll_gradients", check, strategy=lambda tier: cases(tier), quick=640, thorough=15000)]
